@@ -234,7 +234,7 @@ pub fn book_case_strategy(cfg: GenCfg) -> BoxedStrategy<BookCase> {
         let f = Frame { tick, mid, wide: cfg.wide, offgrid: cfg.offgrid, narrow: cfg.narrow };
         let trading = off >= cfg.start_off_pct;
         let (tie, drain) = (cfg.tie, cfg.drain);
-        proptest::collection::vec(op_strategy(&cfg, &f), 0..=cfg.max_len).prop_map(move |ops| BookCase { tick, levels, trading, t0, tie, ops, drain })
+        (proptest::collection::vec(op_strategy(&cfg, &f), 0..=cfg.max_len), prop_oneof![5 => Just(0u64), 2 => any::<u64>(), 1 => Just(u64::MAX)]).prop_map(move |(ops, quiet)| BookCase { tick, levels, trading, t0, tie, ops, drain, quiet })
     })
     .boxed()
 }
@@ -474,7 +474,7 @@ pub fn env_case_strategy(cfg: EnvGenCfg) -> BoxedStrategy<EnvCase> {
         1 => prop_oneof![12 => 1u8..=4, 1 => proptest::sample::select(vec![8u8, 11, 12, 16])].boxed(),
         _ => prop_oneof![8 => Just(0u8), 4 => Just(1u8), 8 => Just(2u8), 4 => Just(3u8), 4 => Just(4u8), 1 => proptest::sample::select(vec![8u8, 11, 12, 16])].boxed(),
     };
-    let head = (kind, proptest::collection::vec((1u32..=10, 6u32..1000), 16), 1usize..=crate::dynbook::MAX_LEVELS, proptest::sample::select(MARKET_LEVELS.to_vec()), 0u64..100_000, any::<u64>(), 0u32..100, (0u32..100, 0u32..100));
+    let head = (kind, proptest::collection::vec((1u32..=10, 6u32..1000), 16), 1usize..=crate::dynbook::MAX_LEVELS, proptest::sample::select(MARKET_LEVELS.to_vec()), prop_oneof![12 => 0u64..100_000, 1 => (32u32..=61, 0u64..1000).prop_map(|(e, d)| (1u64 << e) - 500 + d)], any::<u64>(), 0u32..100, (0u32..100, 0u32..100));
     head.prop_flat_map(move |(kind_assets, tm, l_env, l_mkt, t0, seed, off, (large, ext))| {
         let n = (kind_assets as usize).max(1);
         let levels = if kind_assets == 0 { l_env } else if kind_assets > 4 { if l_mkt % 2 == 0 { 10 } else { 3 } } else { l_mkt };
@@ -493,7 +493,7 @@ pub fn env_case_strategy(cfg: EnvGenCfg) -> BoxedStrategy<EnvCase> {
         } else {
             // small step sizes as well: batches are cut to the step size below, so that batches of EXACTLY
             // step-size instructions (the largest the property allows) are a regular class
-            (prop_oneof![2 => Just(16u64), 1 => Just(17u64), 2 => Just(100u64), 2 => Just(1000u64), 1 => Just(1_000_000u64), 4 => 1u64..=12].boxed(), 0..=cfg.max_batch)
+            (prop_oneof![4 => Just(16u64), 2 => Just(17u64), 4 => Just(100u64), 4 => Just(1000u64), 2 => Just(1_000_000u64), 8 => 1u64..=12, 1 => prop_oneof![Just(u32::MAX as u64), Just(1u64 << 32), Just((1u64 << 32) + 1), Just(1u64 << 48)]].boxed(), 0..=cfg.max_batch)
         };
         let mut icfg = cfg.clone();
         if is_large || is_large_overfull {
